@@ -16,6 +16,19 @@ for p in props:
         na.append({"property_id": pid, "reason": "check not built yet (build-out in progress; see DESIGN.md section 5 %s)" % pid})
         continue
     m = importlib.import_module("hyverif.props." + pid.lower())
+    src = f.read_text()
+    extra = ""
+    if "ctx.presentations(" in src:
+        extra += (" Each judged call is also repeated with value-identical presentations of "
+                  "its inputs (strided, negatively strided, Fortran-ordered and read-only "
+                  "arrays must be accepted and give the same result; lists, pandas objects "
+                  "incl. a non-default index and exact int64 copies may be refused but not "
+                  "answered differently; DESIGN 12.7).")
+    if "ctx.reuse(" in src or "reuse" in src:
+        extra += (" Reuse step: the same argument objects are passed again, results kept "
+                  "by the caller must not be overwritten by later calls, and a call made "
+                  "after the caller edited its results must still give the first answer "
+                  "(DESIGN 12.8).")
     checks.append({
         "property_id": pid,
         "quick_cmd": f"./check {pid} --tier quick",
@@ -24,7 +37,7 @@ for p in props:
         "replay_cmd_template": f"./check {pid} --replay {{path}}",
         "engine": getattr(m, "ENGINE", "reference-model monitors"),
         "level_claimed": {"category": "exploration",
-                          "text": TEXTS[pid][1] + COMMON + " Workload: " + m.RULE,
+                          "text": TEXTS[pid][1] + COMMON + extra + " Workload: " + m.RULE,
                           "design_ref": f"DESIGN.md section 5 {pid}"},
         "level_note": getattr(m, "LEVEL_NOTE", "; ".join(getattr(m, "ASSUMPTIONS", [])) or "oracle written from the property text; finite executions only"),
         "technique": TEXTS[pid][0],
